@@ -187,7 +187,7 @@ pub fn run_cases(
     let outcomes: Mutex<Vec<(u64, Outcome)>> = Mutex::new(Vec::new());
     child::run_children(total, ctx.jobs as u64, cpu_budget_s, Duration::from_secs(600), &ctx.work, &|o| {
         let idx = match &o {
-            Outcome::Done(i, _) | Outcome::Abort(i, _) | Outcome::Hang(i, _) | Outcome::WallTimeout(i) => *i,
+            Outcome::Done(i, _) | Outcome::Abort(i, _) | Outcome::Hang(i, _) | Outcome::WallTimeout(i) | Outcome::Killed(i) => *i,
         };
         outcomes.lock().unwrap().push((idx, o));
     });
@@ -230,6 +230,9 @@ pub fn run_cases(
             }
             Outcome::WallTimeout(_) => {
                 rep.inconclusive.push(format!("case #{idx}: wall-clock watchdog fired (no verdict)"));
+            }
+            Outcome::Killed(_) => {
+                rep.inconclusive.push(format!("case #{idx}: the case process was ended by SIGKILL from outside (out-of-memory killer or operator; no verdict)"));
             }
         }
     }
